@@ -42,26 +42,38 @@ CONSTANTS Tokens,      \* subset of AllTokens
           XsdVersion   \* "1.0" | "1.1"
 
 AllTokens == {"a", "-", "^", "$", ".", "*", "?", "+", "{2}", "{1,2}", "{2,1}", "{1,}", "{,2}",
+              "}", "%0", "{10}", "{2,10}", "{9,10}", "{10,2}", "{10,9}", "{12,}", "{3,12}", "{7,100}", "{100,7}", "{0,0}", "{11,11}",
               "(", ")", "(?:", "|", "[", "]", "%d", "%-", "%n", "%p{L}", "%1", "%e", "%f"}
 ASSUME Tokens \subseteq AllTokens /\ First \subseteq Tokens
 
 VARIABLES toks, valid, why, unsure, qsub
 vars == <<toks, valid, why, unsure, qsub>>
 
-QuantToks == {"*", "?", "+", "{2}", "{1,2}", "{1,}"}      \* "{2,1}" (n > m) and "{,2}" are never quantifiers
+(* {n} {n,m} {n,} with their bounds; UNB = no upper bound.  XSD Part 2 F.1 [4]-[8]: in {n,m} "n must be
+   less than or equal to m" -- compared as NUMBERS ({2,10} and {9,10} are valid, {10,2} and {10,9} are not) *)
+UNB == 1000000
+Braces == {"{2}", "{1,2}", "{2,1}", "{1,}", "{,2}", "{10}", "{2,10}", "{9,10}", "{10,2}", "{10,9}", "{12,}", "{3,12}",
+           "{7,100}", "{100,7}", "{0,0}", "{11,11}"}
+Bounds(t) == CASE t = "{2}" -> <<2, 2>> [] t = "{1,2}" -> <<1, 2>> [] t = "{2,1}" -> <<2, 1>> [] t = "{1,}" -> <<1, UNB>>
+               [] t = "{10}" -> <<10, 10>> [] t = "{2,10}" -> <<2, 10>> [] t = "{9,10}" -> <<9, 10>>
+               [] t = "{10,2}" -> <<10, 2>> [] t = "{10,9}" -> <<10, 9>> [] t = "{12,}" -> <<12, UNB>>
+               [] t = "{3,12}" -> <<3, 12>> [] t = "{7,100}" -> <<7, 100>> [] t = "{100,7}" -> <<100, 7>>
+               [] t = "{0,0}" -> <<0, 0>> [] t = "{11,11}" -> <<11, 11>>
+WellFormedBrace(t) == t \in Braces \ {"{,2}"}            \* "{,2}" has no lower bound: not in the grammar
+QuantToks == {"*", "?", "+"} \cup {t \in Braces : WellFormedBrace(t) /\ Bounds(t)[1] <= Bounds(t)[2]}
 SingleEsc == {"%-", "%n"}
 MultiEsc  == {"%d", "%p{L}"}
-BadEsc    == {"%e", "%f"}                               \* not an XSD escape
+BadEsc    == {"%e", "%f", "%0"}                               \* not an XSD escape
 Xp        == Mode # "xsd"
 
 (* code point of the first / last character of a token that is made of ordinary class characters *)
 OrdFirst(t) == CASE t = "a" -> 97 [] t = "^" -> 94 [] t = "$" -> 36 [] t = "." -> 46 [] t = "*" -> 42
                  [] t = "?" -> 63 [] t = "+" -> 43 [] t = "(" -> 40 [] t = ")" -> 41 [] t = "|" -> 124
-                 [] t = "(?:" -> 40 [] t \in {"{2}", "{1,2}", "{2,1}", "{1,}", "{,2}"} -> 123
-                 [] t = "%-" -> 45 [] t = "%n" -> 10 [] t = "-" -> 45
-OrdLast(t)  == CASE t = "(?:" -> 58 [] t \in {"{2}", "{1,2}", "{2,1}", "{1,}", "{,2}"} -> 125
+                 [] t = "(?:" -> 40 [] t \in Braces -> 123
+                 [] t = "%-" -> 45 [] t = "%n" -> 10 [] t = "-" -> 45 [] t = "}" -> 125
+OrdLast(t)  == CASE t = "(?:" -> 58 [] t \in Braces -> 125
                  [] OTHER -> OrdFirst(t)
-PlainInClass == {"a", "^", "$", ".", "*", "?", "+", "(", ")", "|", "(?:", "{2}", "{1,2}", "{2,1}", "{1,}", "{,2}"}
+PlainInClass == {"a", "^", "$", ".", "*", "?", "+", "(", ")", "|", "(?:", "}"} \cup Braces
 
 (* the grammar, parameterised by the token string w and by options opt:
    opt.strict = XSD 1.0 hyphen rules, opt.ncg = non-capturing groups "(?:" exist *)
@@ -181,7 +193,8 @@ ClosureLaw ==
                /\ Valid(toks \o <<"a">>, Strict)
 (* what can never be valid *)
 NeverValid ==
-   /\ (toks # <<>> /\ toks[1] \in QuantToks \cup {")", "]", "{2,1}", "{,2}"}) => ~valid
+   /\ (toks # <<>> /\ toks[1] \in QuantToks \cup {")", "]"} \cup Braces) => ~valid
+   /\ (\E p \in 1..Len(toks) : toks[p] \in Braces \ QuantToks /\ ClsDepth(toks, p - 1) = 0) => ~valid
    /\ (toks # <<>> /\ toks[Len(toks)] \in {"(", "(?:", "["}) => ~valid
    /\ (Cardinality({p \in 1..Len(toks) : toks[p] \in {"(", "(?:"} /\ ClsDepth(toks, p - 1) = 0})
          # Cardinality({p \in 1..Len(toks) : toks[p] = ")" /\ ClsDepth(toks, p - 1) = 0})) => ~valid
